@@ -6,6 +6,7 @@ import ast
 from ..core import AnalysisError, call_name, dotted, kwarg, norm, walk_no_nested
 from ..effects import Summaries, analyse
 from ..registry import describe, rule
+from .. import tmatch as tm
 from ..guards import sites
 from ..util import calls_named, peel, returns_of
 from . import shared
@@ -268,6 +269,23 @@ def coupled(rc):
 
 
 
+@rule("C04.zerodiv", "division defines 0/0 := 0 on the quotient table (x/0 stays inf), after the pointwise division", floor=1)
+def zerodiv(rc):
+    """The quantifier of the property names `0/0 and x/0 in division`: the documented convention is 0/0 = 0 and x/0 = inf.  numpy gives nan for 0/0;
+    the divide method must overwrite exactly the nan cells of the quotient with 0, after the division (belief-update message passing relies on it)."""
+    repo = rc.repo
+    f = repo.func(DF, "DiscreteFactor.divide")
+    work = shared.working_alias(f) or "phi"
+    divs = [n for n in walk_no_nested(f.node) if isinstance(n, ast.Assign) and tm.is_(n, "_W.values = _W.values / __D") is not None]
+    fixes = [n for n in walk_no_nested(f.node) if isinstance(n, ast.Assign) and tm.is_(n, "_W.values[__B.isnan(_W.values)] = 0") is not None]
+    rc.ob(f"divide: pointwise division at {[n.lineno for n in divs]}, 0/0 := 0 at {[n.lineno for n in fixes]}")
+    if not divs:
+        raise AnalysisError("DiscreteFactor.divide: pointwise division not found")
+    if not fixes or fixes[-1].lineno < divs[-1].lineno or tm.is_(fixes[-1], "_W.values[__B.isnan(_W.values)] = 0")["_W"] != tm.is_(divs[-1], "_W.values = _W.values / __D")["_W"]:
+        rc.fail(f, divs[-1], "after `values / values` the 0/0 cells are nan: the documented convention 0/0 := 0 must be applied to the quotient (else marginals computed through "
+                "divide, e.g. belief updates with exact zeros, come back as nan)", construct="divide 0/0 convention")
+
+
 @rule("C04.axes", "backend helpers tell `axis=None` (reduce over everything) from an empty axis tuple (reduce over nothing) by identity, never by truthiness", floor=1)
 def axes(rc):
     """maximize([]) / marginalize([]) are identities (an empty scope difference in max-product message passing produces exactly that); the backend
@@ -308,6 +326,8 @@ def defuse(rc):
     _sh.defuse_rule(rc, _sh.anchor_files("C04"))
 
 MUTANTS = [
+    dict(kind="break", name="divide-keeps-nan-for-zero-over-zero", file=DF, expect="C04.zerodiv",
+         old="        phi.values[config.get_compute_backend().isnan(phi.values)] = 0\n", new=""),
     dict(kind="break", name="max-empty-axis-means-all", file="pgmpy/utils/compat_fns.py", expect="C04.axes",
          old="def max(arr, axis=None):\n    if axis is not None:\n        axis = tuple(axis)\n", new="def max(arr, axis=None):\n    axis = tuple(axis) if axis else None\n"),
     dict(kind="break", name="reduce-result-views-operand", file=DF, expect="C04.inplace",
